@@ -193,6 +193,32 @@ func runC10(c *core.Ctx) {
 				return
 			}
 			c.Crumb(w, fmt.Sprintf("file %d", i))
+			// the fault-free reference itself against the file: one record per heading, one entry per entry line
+			wantRecs, wantEnts := c10CountHeadings(text), c10CountEntries(text)
+			gotEnts := 0
+			for _, e := range ref {
+				if e.Node != nil {
+					gotEnts += len(e.Node.Elements)
+				}
+			}
+			if len(ref) != wantRecs || gotEnts != wantEnts {
+				c.Violation("ParseStreamCallback|success-on-a-part-of-the-file", fmt.Sprintf("fault-free parse returned nil with %d records / %d entries; the file has %d headings / %d entry lines", len(ref), gotEnts, wantRecs, wantEnts), map[string]any{"file": text})
+			}
+			// the same content under every way a file can end (no terminator, CRLF, a CRLF cut before its LF) and
+			// with CRLF throughout: the same records
+			body := strings.TrimRight(text, "\n")
+			for _, alt := range []string{body, body + "\r\n", body + "\r", strings.ReplaceAll(body, "\n", "\r\n") + "\r", strings.ReplaceAll(body, "\n", "\r\n") + "\r\n"} {
+				for _, chunk := range []int{0, 1} {
+					rd := &countingReader{data: []byte(alt), limit: -1, chunk: chunk}
+					evs, ret, pnc := parseWith(rd)
+					c.Eval(1)
+					c.Count("l3_file_ending_variants", 1)
+					if pnc != "" || ret != nil || !rd.eof || !eventsEqual(evs, ref) {
+						c.Violation("ParseStreamCallback|file-ending-changes-the-records", fmt.Sprintf("file ending in %q: returned %v, panic %q, %d records (the same lines ending in a line feed give %d)", alt[max(0, len(alt)-3):], ret, clip(pnc, 100), len(evs), len(ref)), map[string]any{"file": alt, "chunk": chunk})
+						break
+					}
+				}
+			}
 			for _, chunk := range []int{1, 7, 0, -1} {
 				for _, partial := range []bool{false, true} {
 					for k := -1; k <= len(data); k++ {
@@ -502,6 +528,18 @@ func c10CountHeadings(text string) int {
 	return n
 }
 
+// c10CountEntries counts the entry lines of a well-formed generated file: indented, not a note.
+func c10CountEntries(text string) int {
+	n := 0
+	for _, ln := range strings.Split(text, "\n") {
+		t := strings.Trim(ln, " \t\r-")
+		if ln != "" && (ln[0] == ' ' || ln[0] == '\t' || ln[0] == '-') && t != "" && t[0] != '#' {
+			n++
+		}
+	}
+	return n
+}
+
 func c10LongLine(kind string, size int) string {
 	switch kind {
 	case "comment":
@@ -570,6 +608,53 @@ func c10L1(c *core.Ctx) {
 				c.Violation(sig+"|crash-on-unreadable-input", v.what+": "+clip(res.Serr, 300), doc)
 			} else if res.Exit == 0 {
 				c.Violation(sig+"|unreadable-input-accepted", fmt.Sprintf("%s: %s exits 0 with %d bytes of report", v.what, joinArgs(cmd.args), len(res.Out)), doc)
+			}
+		}
+	}
+	// lint given further arguments after the unreadable file: the failure of the file it names first is not
+	// outvoted by whatever comes after it
+	for _, v := range []struct{ what, file string }{{"directory", "adir"}, {"70 KiB note line", "longlog.yaml"}, {"missing file", "nonexistent.yaml"}} {
+		for _, extra := range [][]string{{"log.yaml"}, {"food.yaml", "log.yaml"}} {
+			for _, silent := range []bool{false, true} {
+				args := []string{"--no-color", "lint"}
+				if silent {
+					args = append(args, "--silent")
+				}
+				args = append(append(args, v.file), extra...)
+				res := run.Exec(c.HR, args, run.ExecOpts{Dir: dir})
+				c.Eval(1)
+				c.Count("l1_lint_with_further_arguments", 1)
+				c.Nontrivial("l1lint", v.what, joinArgs(args))
+				if res.Crashed() || res.Exit == 0 {
+					c.Violation("lint|unreadable-input-accepted", fmt.Sprintf("lint of a %s followed by readable files: exit %d", v.what, res.Exit), caseDoc{Args: args, Note: v.what, Observed: resDoc(res)})
+				}
+			}
+		}
+	}
+	// a file whose last byte is a carriage return (CRLF file cut before the final line feed): every line counts
+	{
+		crlog := strings.ReplaceAll(strings.TrimRight(log, "\n"), "\n", "\r\n") + "\r"
+		crbook := strings.ReplaceAll(strings.TrimRight(book, "\n"), "\n", "\r\n") + "\r"
+		os.WriteFile(filepath.Join(dir, "crlog.yaml"), []byte(crlog), 0o644)
+		os.WriteFile(filepath.Join(dir, "crbook.yaml"), []byte(crbook), 0o644)
+		for _, cmd := range cmds {
+			if cmd.lintFile != "" {
+				continue
+			}
+			base := append([]string{"--no-color", "--today", "2021/02/01"}, cmd.args...)
+			ref := run.Exec(c.HR, append([]string{"-d", "food.yaml", "-l", "log.yaml"}, base...), run.ExecOpts{Dir: dir})
+			args := append([]string{"-d", "crbook.yaml", "-l", "crlog.yaml"}, base...)
+			res := run.Exec(c.HR, args, run.ExecOpts{Dir: dir})
+			c.Eval(2)
+			c.Count("l1_files_ending_in_a_carriage_return", 1)
+			if cmd.args[0] == "stats" {
+				// stats prints the file names
+				res.Out = strings.NewReplacer("crbook.yaml", "food.yaml", "crlog.yaml", "log.yaml").Replace(res.Out)
+			}
+			if res.Exit != ref.Exit || res.Out != ref.Out {
+				sig := strings.Join(cmd.args[:min(2, len(cmd.args))], " ")
+				c.Violation(sig+"|file-ending-changes-the-report", fmt.Sprintf("%s: the same lines ending in CR LF, the last one in a bare CR, give exit %d and a different report", joinArgs(cmd.args), res.Exit),
+					caseDoc{Files: map[string]string{"crbook.yaml": crbook, "crlog.yaml": crlog, "food.yaml": book, "log.yaml": log}, Args: args, Expected: resDoc(ref), Observed: resDoc(res)})
 			}
 		}
 	}
